@@ -29,11 +29,11 @@ func c18(r *core.Run) {
 		core.InstrsOf(fn, func(in ssa.Instruction) {
 			switch x := in.(type) {
 			case *ssa.MapUpdate:
-				if _, ok := core.FieldLoad(x.Map, "sigMap"); ok {
+				if _, _, ok := fieldLoadBy(x.Map, isStringIntMap); ok {
 					mapUpdates = append(mapUpdates, x)
 				}
 			case *ssa.Store:
-				if fa, ok := x.Addr.(*ssa.FieldAddr); ok && core.FieldName(fa.X.Type(), fa.Field) == "sigMap" {
+				if fa, ok := x.Addr.(*ssa.FieldAddr); ok && isStringIntMap(deref1(fa.Type())) {
 					if _, isMake := x.Val.(*ssa.MakeMap); isMake {
 						mapRebuild = append(mapRebuild, x)
 					}
@@ -49,7 +49,11 @@ func c18(r *core.Run) {
 			if !ok {
 				return
 			}
-			switch core.FieldName(fa.X.Type(), fa.Field) {
+			role := core.FieldName(fa.X.Type(), fa.Field)
+			if strings.HasSuffix(deref1(fa.Type()).String(), "SignatureDatabase") {
+				role = "db" // the scanner's database pointer, whatever the field is called
+			}
+			switch role {
 			case "Signatures":
 				if _, isAppend := isBuiltinCall(st.Val, "append"); !isAppend {
 					return
@@ -415,7 +419,7 @@ func c18FreshTarget(r *core.Run) {
 				case name == "encoding/json.Unmarshal":
 					target = c.Args[1]
 				default:
-					if callee := core.StaticCallee(c); callee != nil && p.IsProdFunc(callee) && len(c.Args) == 2 && strings.HasPrefix(callee.Name(), "decode") {
+					if callee := core.StaticCallee(c); callee != nil && p.IsProdFunc(callee) && len(c.Args) == 2 && c.Args[0].Type().String() == "[]byte" {
 						target = c.Args[1]
 					}
 				}
